@@ -1,6 +1,8 @@
 # Run TLC on a module of /verif/spec and parse what it reports.
-import os, re, subprocess, time, json, shutil
+import os, re, subprocess, time, json, shutil, itertools
 from . import common
+
+_seq = itertools.count()   # next() is atomic under the GIL: distinct cfg/metadir names for concurrent runs
 
 JAR = "/opt/veriftools/tla/tla2tools.jar:/opt/veriftools/tla/CommunityModules-deps.jar"
 
@@ -50,7 +52,7 @@ def run(module, cfg_text, workers="auto", env=None, args=(), timeout=3600, simul
         depth=None, coverage=False, seed=None, deadlock=None, dfs=False):
   """module: file name inside spec/ (e.g. 'Hsm.tla'). cfg_text: contents of the cfg."""
   wd = common.work_dir()
-  tag = "%s_%d" % (os.path.splitext(module)[0], int(time.time() * 1e6) % 10**9)
+  tag = "%s_%d_%d" % (os.path.splitext(module)[0], int(time.time() * 1e6) % 10**9, next(_seq))
   cfg = os.path.join(wd, tag + ".cfg")
   with open(cfg, "w") as f:
     f.write(cfg_text)
